@@ -14,9 +14,10 @@ import (
 func Run(r *mc.Run) {
 	setup()
 	r.Level = "exploration"
-	r.Rule = "auth: every single-field mutation (nonce/limit every bit, price/value low 72 bits, every recipient bit, every payload bit, every bit of R and S, V over 0..255+2*id and wide values, other network ids on signer and/or V, high-s twin) of 6 signed base transactions, decoded from wire form by the real decoder and given to types.Sender; " +
+	r.Rule = "auth: every single-field mutation (nonce/limit every bit, price/value low 72 bits, every recipient bit, every payload bit, every bit of R and S, V over 0..255+2*id and wide values, other network ids on signer and/or V, high-s twin) of 6 signed base transactions, decoded from wire form by the real decoder; EVERY mutated object is asked for its sender repeatedly, as the node does: types.Sender, types.Sender again, AsMessage, types.Sender with an equal signer built independently, core.ProcessSenders over a batch of NumCPU+1 transactions holding it followed by AsMessage and Sender, and a fresh object of the same wire form whose first contact is ProcessSenders (each answer: refused or a sender other than the original signer, never the zero address without an error, the same answer every time); control: every valid base transaction object queried by a foreign-network signer and the right signer in both orders, 13 steps, for 6 foreign ids (foreign = refused every time, right = the signer every time); " +
+		"forged: the full product base transaction (4) x forgery (9: high-s twin, N-s, foreign network in V (2), R=0, S=0, R+N, unprotected V, wide V) x way to ApplyTransaction (4: directly; after ProcessSenders on a batch of NumCPU+1; after ProcessSenders and after the valid transactions before it were applied; after a refused types.Sender and ProcessSenders) x position in the batch (3), two attempts each, on a state where the zero address holds funds: refused for its signature, all three trie roots, gas pool and header counters untouched; " +
 		"product: the full product sender x nonce x price x limit x recipient x value x payload x balance x pool through the real StateProcessor.ApplyTransaction driven as miner/worker.go does (Prepare, Snapshot, ApplyTransaction, RevertToSnapshot on error) with the staking converter registered, on a state reopened from a committed base; " +
-		"seq: every sequence of <= depth transactions of a 10-element alphabet (two senders, competing nonces, one GasPool). A case is non-trivial when distinct: distinct = (recipient, payload, limit class, outcome incl. gas used) for product, (op, outcome) for sequences, (base, field, mutation) for auth"
+		"seq: every sequence of <= depth transactions of a 10-element alphabet (two senders, competing nonces, one GasPool). A case is non-trivial when distinct: distinct = (recipient, payload, limit class, outcome incl. gas used) for product, (op, outcome) for sequences, (base, field, mutation) for auth, (base, forgery, way, position) for forged"
 	depth := 3
 	if r.Quick() {
 		r.SetBudget(150e9)
@@ -34,6 +35,7 @@ func Run(r *mc.Run) {
 	r.Assume("refusals outside the three reasons the statement names (limit below intrinsic gas, value not covered after gas) are required to leave the state untouched after the miner's RevertToSnapshot; their effect on the gas pool is counted (late_refusal_shrinks_pool_*), not judged")
 
 	runAuth(r)
+	runForged(r)
 	runProduct(r)
 	f := func() mc.System { return newSeqSys(r) }
 	r.DFSAll(f, mc.SeqOpts{Name: "txseq", Depth: depth, ShardDepth: 2, NoDistinct: true})
@@ -76,6 +78,18 @@ func Replay(r *mc.Run, v *mc.Violation) {
 			return
 		}
 		f.check(r, authCase{in.Base, in.Mut})
+	case "forged":
+		var fin forgedInput
+		if err := json.Unmarshal(bs, &fin); err != nil {
+			fmt.Println("bad input:", err)
+			return
+		}
+		fs, desc := runForgedCase(newBase(), fillerTxs(), fin, func(string) {})
+		fmt.Println(desc)
+		for _, f := range fs {
+			fmt.Println("violation:", f.sig, "\n ", f.detail)
+			r.Report(mc.Violation{Sig: f.sig, Detail: f.detail, Input: v.Input})
+		}
 	case "product":
 		obs, fs, desc := runProductCase(newBase(), in.Idx, &txCache{}, func(string) {})
 		fmt.Println(desc, "=>", obs)
